@@ -172,6 +172,19 @@ def run(tier):
                        "want": {"tables": ["t1"], "columns": [c for c in ["a", "b"] if (" %s " % c) in sql.replace(",", " ")],
                                 "qcolumns": [["", c] for c in ["a", "b"] if (" %s " % c) in sql.replace(",", " ")], "functions": [],
                                 "functions_optional": [kw]}})
+    # flat operator chains: the parser reads UNION / AND / OR / + / || chains in loops, one tree level per operator, so a
+    # chain of k operands is a tree of depth k although nothing is nested in the text (no nesting limit applies): names
+    # written in the first operands sit deepest
+    kk = 160 if quick else 450
+    def wide(shape, sql, tables, columns, functions):
+        decoys.append({"sql": sql, "shape": "flat_chain:" + shape, "nodump": True,
+                       "want": {"tables": tables, "columns": columns, "qcolumns": [["", c] for c in columns], "functions": functions}})
+    wide("union_all", "SELECT k1 FROM s1.t4 UNION ALL SELECT Price FROM s2.t5" + " UNION ALL SELECT a FROM t1" * kk,
+         ["s1.t4", "s2.t5", "t1"], ["k1", "Price", "a"], [])
+    wide("and", "SELECT a FROM t1 WHERE UPPER(name) = 'x' AND k1 = 1" + " AND a = 1" * kk, ["t1"], ["a", "name", "k1"], ["UPPER"])
+    wide("or", "SELECT a FROM t1 WHERE lower(name) = 'x' OR k1 = 1" + " OR a = 1" * kk, ["t1"], ["a", "name", "k1"], ["lower"])
+    wide("plus", "SELECT f(id) + amount" + " + a" * kk + " FROM t1", ["t1"], ["id", "amount", "a"], ["f"])
+    wide("concat", "SELECT g(name) || c" + " || a" * kk + " FROM t1", ["t1"], ["name", "c", "a"], ["g"])
     corpus = sqlgen.corpus_statements() + sqlgen.generated_statements(rng, 300 if quick else 4000) + sqlgen.SPECIAL
     inputs = [d for _, _, d in ref] + decoys + [{"sql": s} for s in corpus]
     for i, d in enumerate(inputs):
@@ -197,6 +210,8 @@ def run(tier):
         for f in oracle(r, d["want"]):
             failures.append((d, r, f))
     for d, r in zip(decoys, res[n_ref_in:n_ref_in + len(decoys)]):
+        if d["shape"].startswith("flat_chain:") and not r["accepted"]:
+            failures.append((d, r, "rejected:flat chain of %d operands is not accepted" % kk))
         if r["accepted"]:
             for f in oracle(r, d["want"]):
                 failures.append((d, r, f))
